@@ -183,7 +183,10 @@ def main_c17(tier):
 
 
 # =============================================================================== C18
-A_ACTIONS = ["connect", "refused_connect", "op", "failing_op", "disconnect", "ctx_ok", "ctx_body_raises", "ctx_refused"]
+A_ACTIONS = ["connect", "refused_connect", "op", "failing_op", "disconnect", "ctx_ok", "ctx_body_raises", "ctx_refused",
+             "ctx_body_runtime", "ctx_body_connerr", "ctx_body_failing_op"]
+BODY_EXC = {"ctx_body_raises": KeyError, "ctx_body_runtime": RuntimeError, "ctx_body_connerr": ConnectionResetError,
+            "ctx_body_failing_op": RuntimeError}
 
 
 def run_c18(case, eng, res):
@@ -222,7 +225,7 @@ def run_c18(case, eng, res):
             k = path.choose_value(a.t, "act") if isinstance(a, SymInt) else a
             kind = A_ACTIONS[k]
             # preconditions: connect only while disconnected; operations only while connected
-            if kind in ("connect", "refused_connect", "ctx_ok", "ctx_body_raises", "ctx_refused") and state["connected"]:
+            if (kind in ("connect", "refused_connect", "ctx_ok", "ctx_refused") or kind in BODY_EXC) and state["connected"]:
                 raise E.PathAbort()
             if kind in ("op", "failing_op") and not state["connected"]:
                 raise E.PathAbort()
@@ -241,14 +244,20 @@ def run_c18(case, eng, res):
                     do_op(False)
                 elif kind == "disconnect":
                     aio.run(api.disconnect())
-                elif kind in ("ctx_ok", "ctx_body_raises", "ctx_refused"):
+                elif kind in ("ctx_ok", "ctx_refused") or kind in BODY_EXC:
                     refuse_next[0] = kind == "ctx_refused"
 
                     async def ctx():
                         async with api as a_:
                             inside.append((a_ is api, api.connected, w.conns[-1].closed if w.conns else None))
-                            if kind == "ctx_body_raises":
-                                raise KeyError("body")
+                            if kind == "ctx_body_failing_op":
+                                set_replies(False)
+                                if api_type == 1:
+                                    await api.get_state()
+                                else:
+                                    await api.get_shutter_state()
+                            elif kind in BODY_EXC:
+                                raise BODY_EXC[kind]("body")
 
                     inside = []
                     aio.run(ctx())
@@ -290,7 +299,7 @@ def run_c18(case, eng, res):
                 else:
                     if kind == "ctx_ok" and raised is not None:
                         viol.append("context raised %s" % type(raised).__name__)
-                    if kind == "ctx_body_raises" and not isinstance(raised, KeyError):
+                    if kind in BODY_EXC and not isinstance(raised, BODY_EXC[kind]):
                         viol.append("body exception was replaced by %s" % (type(raised).__name__ if raised else None))
                     if not inside or inside[0] != (True, True, False):
                         viol.append("inside the context: (same object, connected, socket closed) = %r" % (inside[:1],))
@@ -332,7 +341,7 @@ def run_c18(case, eng, res):
 
 def main_c18(tier):
     t0 = time.time()
-    steps = 5 if tier == "quick" else 7
+    steps = 4 if tier == "quick" else 6
     cases = [{"api": t, "steps": steps, "first": f} for t in (1, 2) for f in A_ACTIONS if f not in ("op", "failing_op")]
     results = H.run_cases("harness.lifecycle", "run_c18", cases, timeout_ms=60000)
     nw = H.validate_call_witnesses(results, cmp=lambda exp, o: bool(o.get("violates")) == exp["violates"])
